@@ -302,7 +302,8 @@ def run(ctx):
     ctx.assumptions.append("theorems are stated for the walker as it is after commits ed573d7 / aea6dd5 "
                            "(Template.options_current); the harness always evaluates that model, so a revert of "
                            "either commit shows up as a model/rope mismatch and through corpus/C08")
-    check_sources(ctx, [("fixed-%d" % i, s) for i, s in enumerate(FIXED)], "fixed")
+    from harness import c08_cases
+    check_sources(ctx, [("fixed-%d" % i, s) for i, s in enumerate(FIXED + c08_cases.EXTRA)], "fixed")
     n_core = ctx.scale(260, 4000)
     n_stress = ctx.scale(120, 1500)
     core = [("core-%d" % i, s) for i, (s, _) in enumerate(c08_gen.generate(ctx.rng, n_core, stress=False))]
